@@ -320,3 +320,100 @@ def clock_is_read_under_the_bucket_lock(ctx):
 def q_stmt_of(node):
     from ..ir import enclosing_stmt
     return enclosing_stmt(node)
+
+
+@rule('C13.g', ['C13'], floor=3)
+def smoothing_allowance_is_a_quarter(ctx):
+    """The 1.25 of the property is 1/alpha of the exponential moving average the bucket
+    projects with: a consume() is let through when alpha*new + (1-alpha)*current <=
+    max_rate, so one sample can exceed the limit by the factor 1/alpha at most.  The
+    bucket the manager builds uses the default tracker, and the default alpha, evaluated
+    from the source, lies in [0.8, 1]."""
+    lb = ctx.func('bandwidth.LeakyBucket.__init__')
+    tr = [c for c in own_calls(lb.node) if norm(c.func) == 'BandwidthRateTracker']
+    ctx.need(tr, 'LeakyBucket.__init__ no longer builds its BandwidthRateTracker')
+    rt = ctx.func('bandwidth.BandwidthRateTracker.__init__')
+    ap = rt.params[1] if len(rt.params) > 1 else 'alpha'
+    for c in tr:
+        a = q.argn(c, ap, 0)
+        if a is None:
+            a = rt.defaults_map().get(ap)
+        try:
+            val = q.const_eval(ctx, a, rt.module) if a is not None else None
+        except Exception:
+            val = None
+        ok = isinstance(val, (int, float)) and not isinstance(val, bool) and 0.8 <= val <= 1
+        ctx.ob(lb, f'default tracker alpha = {val}', ok,
+               f'with alpha={val} a single consume may exceed the limit by the factor 1/alpha = {round(1 / val, 3) if isinstance(val, (int, float)) and val else "?"} > 1.25 '
+               '(bursts after idle samples go through unthrottled)')
+    st = [norm(v) for fn, v in ctx.cls('bandwidth.BandwidthRateTracker').init_attrs.get('_alpha', []) if fn is rt]
+    ctx.ob(rt, f'self._alpha = {ap}', st == [ap], f'found {st}')
+    # the manager's bucket takes the defaults (no tracker of its own)
+    sites = [(f, c) for f, c, r in q.call_index(ctx) if norm(c.func) == 'LeakyBucket' and f.module.name != 'bandwidth']
+    for f, c in sites:
+        ctx.ob(f, c, len(c.args) + len(c.keywords) == 1, 'the bucket is given its own tracker / scheduler / clock: the allowance argued from the defaults does not apply')
+    ctx.need(sites, 'no LeakyBucket construction site outside bandwidth.py')
+    # projected rate = alpha * new + (1 - alpha) * current, wherever in the tracker it is computed
+    from ..poly import equal
+    cl = ctx.cls('bandwidth.BandwidthRateTracker')
+    n = 0
+    for m in cl.methods.values():
+        for r in [x.value for x in own_nodes(m.node) if isinstance(x, (ast.Return, ast.Assign)) and x.value is not None and '_alpha' in norm(x.value)]:
+            if norm(r) in (ap, f'self._{ap}'):
+                continue
+            X = None
+            for b in ast.walk(r):
+                if isinstance(b, ast.BinOp) and isinstance(b.op, ast.Mult):
+                    if norm(b.left) == 'self._alpha':
+                        X = b.right
+                    elif norm(b.right) == 'self._alpha':
+                        X = b.left
+                    if X is not None:
+                        break
+            ok = False
+            if X is not None:
+                want = ast.parse(f'self._alpha * ({norm(X)}) + (1 - self._alpha) * self._current_rate', mode='eval').body
+                try:
+                    ok = equal(r, want)
+                except Exception:
+                    ok = False
+            n += 1
+            ctx.ob(m, f'moving average = alpha * new + (1 - alpha) * current ({norm(r)[:70]})', ok, 'the weights must sum to one with alpha on the new sample: otherwise 1/alpha is not the allowance')
+    ctx.need(n >= 1, 'the moving-average expression was not found in BandwidthRateTracker')
+
+
+@rule('C13.h', ['C13', 'C09'], floor=5)
+def upload_bodies_are_charged_only_while_sent(ctx):
+    """Upload bodies are created with limiting switched off and are switched on by the
+    request-created handler (signal_transferring) and off again by the before-sign handler
+    (signal_not_transferring): reads botocore makes while it prepares the request
+    (checksums over the body for http endpoints, signing) are not transfers and must be
+    neither charged nor delayed - charged twice, demand below the limit is throttled."""
+    w = ctx.func('upload.UploadInputManager._wrap_fileobj')
+    cs = [c for c in own_calls(w.node) if (dotted(c.func) or '').endswith('get_bandwith_limited_stream')]
+    ctx.need(len(cs) == 1, '_wrap_fileobj no longer creates exactly one limited stream')
+    gl = ctx.func('bandwidth.BandwidthLimiter.get_bandwith_limited_stream')
+    en = gl.params[3] if len(gl.params) > 3 else 'enabled'
+    a = q.argn(cs[0], en, 2)
+    ctx.ob(w, f'get_bandwith_limited_stream(..., {en}=False)', isinstance(a, ast.Constant) and a.value is False,
+           f'upload bodies must start with limiting off (found {norm(a) if a is not None else "the default"}): reads made before the request is sent would be charged')
+    dis = [c for c in own_calls(gl.node) if isinstance(c.func, ast.Attribute) and c.func.attr == 'disable_bandwidth_limiting']
+    st = [c for c in own_calls(gl.node) if norm(c.func) == 'BandwidthLimitedStream']
+    sv = st[0]._parent.targets[0].id if len(st) == 1 and isinstance(st[0]._parent, ast.Assign) and isinstance(st[0]._parent.targets[0], ast.Name) else None
+    rets = [norm(n.value) for n in own_nodes(gl.node) if isinstance(n, ast.Return) and n.value is not None]
+    ok = len(dis) == 1 and sv is not None and norm(dis[0].func.value) == sv and q.guards_imply(q.guards(dis[0]), f'not {en}') and len(q.guards(dis[0])) == 1 and rets == [sv]
+    ctx.ob(gl, f'if not {en}: stream.disable_bandwidth_limiting(); return stream', ok, 'the flag must reach the stream that is returned')
+    cl = ctx.cls('bandwidth.BandwidthLimitedStream')
+    for meth, val in (('enable_bandwidth_limiting', True), ('disable_bandwidth_limiting', False)):
+        m = cl.methods.get(meth)
+        ctx.need(m is not None, f'BandwidthLimitedStream.{meth} vanished')
+        sts = [n for n in own_nodes(m.node) if isinstance(n, ast.Assign) and dotted(n.targets[0]) == 'self._bandwidth_limiting_enabled']
+        ctx.ob(m, f'self._bandwidth_limiting_enabled = {val}', len(sts) == 1 and isinstance(sts[0].value, ast.Constant) and sts[0].value.value is val and not q.guards(sts[0]), 'toggle broken')
+    for meth, target in (('signal_transferring', 'enable_bandwidth_limiting'), ('signal_not_transferring', 'disable_bandwidth_limiting')):
+        m = cl.methods.get(meth)
+        ctx.need(m is not None, f'BandwidthLimitedStream.{meth} vanished')
+        calls = [c for c in own_calls(m.node) if (dotted(c.func) or '') == f'self.{target}']
+        direct = [n for n in own_nodes(m.node) if isinstance(n, ast.Assign) and dotted(n.targets[0]) == 'self._bandwidth_limiting_enabled'
+                  and isinstance(n.value, ast.Constant) and n.value.value is (target.startswith('enable'))]
+        ctx.ob(m, f'{meth} -> {target}', (len(calls) == 1 and not q.guards(calls[0])) or (len(direct) == 1 and not q.guards(direct[0])),
+               'the transfer signal must switch the limiter (on while sending, off while preparing)')
